@@ -106,6 +106,8 @@ def features(t, style):
                 e = e["e"]
             if t["e"]["k"] == "call" and not t["e"]["as"]:
                 f.add("prefix-on-zero-arg-call")
+            if t["e"]["k"] == "call" and t["e"]["f"]["k"] == "call":
+                f.add("prefix-on-chained-call")          # -f(x)(y): only the first argument list is moved into the operand
             if t["e"]["k"] in ("field", "proj") and e["k"] == "call":
                 f.add("prefix-on-postfix-after-call")
             walk(t["e"])
